@@ -245,7 +245,8 @@ theorem recUserClass_noHook (env : Env) (rec : Node → Ty → RecRes) (n : Node
   · repeat' split
     all_goals first
       | (simp [NoHook, recOk, recFail]; done)
-      | (rename_i he; intro hh; cases hh; exact recAttrs_noHook rec _ _ hrec _ he)
+      | (rename_i he; intro hh; injection hh with hh
+         have := Fatal.atMapping_hook _ _ hh; subst this; exact recAttrs_noHook rec _ _ hrec _ he)
 
 theorem recSubclasses_noHook (recC : ClassDef → RecRes) (hC : ∀ d, NoHook (recC d)) :
     ∀ ds acc, recSubclasses recC ds acc ≠ .error .hook := by
